@@ -49,8 +49,18 @@ def encode(obj):
     validate_encoded(obj)
     return obj
   elif isinstance(obj, list) or isinstance(obj, dict):
-    string = json.dumps(obj)
+    try:
+      string = json.dumps(obj, allow_nan = False)
+    except (ValueError, TypeError, RecursionError) as err:
+      raise gfapy.ValueError(
+        "the value cannot be written as JSON\n"+
+        "{}: {}".format(err.__class__.__name__, err)) from err
     validate_all_printable(string)
+    if json.loads(string) != obj:
+      # e.g. keys which are not strings, tuples
+      raise gfapy.ValueError(
+        "the value is not read back equal from its JSON representation\n"+
+        "{}".format(string))
     return string
   else:
     raise gfapy.TypeError(
